@@ -204,6 +204,11 @@ def eof_case(replay, tail, back, where, shape, crlf=False):
 IMPORT_DUPS = [("duplicate_import_vs_import", ["from shapes use area", "from other use area"], [0, 1]), ("duplicate_import_vs_definition", ["area :: 5", "", "from shapes use area"], [0, 2]),
                ("duplicate_definition_vs_import", ["from shapes use area", "", "area :: 5"], [0, 2]), ("duplicate_import_vs_namespace", ["use shapes", "from other use area as shapes"], [0, 1]),
                ("duplicate_renamed_imports", ["from shapes use area as ar", "from other use side as ar"], [0, 1]),
+               # duplicates inside ONE file: the duplicate is the later occurrence (the earlier one is the valid definition, it is what the help text points at)
+               ("duplicate_enum_variant", ["Pal :: enum", "    Red,", "    Green,", "    Blue,", "    Green,", "end"], [4]),
+               ("duplicate_blob_field", ["Pt :: blob {", "    x: int,", "    y: int,", "    x: int,", "}"], [3]),
+               ("duplicate_global_definition", ["area2 :: 1", "", "side2 :: 3", "area2 :: 2"], [3]),
+               ("duplicate_type_definition", ["Pt :: blob {", "    x: int,", "}", "", "Pt :: blob {", "    y: int,", "}"], [4, 5, 6]),
                # an import list spread over several lines: the error is at the line of the offending NAME, not at the head of the list
                ("unresolved_name_in_a_multi_line_import_list", ["from shapes use (", "    area,", "    side,", "    nope,", ")"], [3]),
                ("unresolved_renamed_name_in_a_multi_line_import_list", ["from shapes use (", "    area,", "    nope as known,", "    side,", ")"], [2]),
